@@ -240,6 +240,8 @@ def fresh_replay(pid, path):
 
 def do_replay(pid, path):
     mod = load(pid)
+    if hasattr(mod, "replay"):
+        return mod.replay(path)
     with open(path) as f:
         rep = json.load(f)
     scn = rep["scenario"]
@@ -374,6 +376,8 @@ def main(argv):
     if not argv:
         sys.stdout.write(__doc__ + "\n")
         return 2
+    if argv[0] == "--worker":
+        return load(argv[1]).worker(argv[2:])
     if argv[0] == "--digests":
         import selftest
 
